@@ -6,8 +6,10 @@ package main
 
 import (
 	"context"
+	"encoding/hex"
 	"errors"
 	"fmt"
+	"strings"
 	"sync/atomic"
 
 	"github.com/Tnze/go-mc/server/command"
@@ -95,24 +97,54 @@ func graphs() []graphSpec {
 	return gs
 }
 
-type CmdCase struct {
-	Graph string `json:"graph"`
-	Line  string `json:"line"`
+// cmdCase: Line is for the reader; LineHex is authoritative (a line may hold bytes that are not
+// valid UTF-8, which JSON text cannot carry).
+func cmdCase(graph, line string) Case {
+	return Case{Kind: "command", Graph: graph, Line: line, LineHex: hex.EncodeToString([]byte(line)), SiteOff: -1}
 }
 
 func runCommand(slot int, gs graphSpec, line string) {
 	g := gs.build()
 	var err error
-	wd.Begin(slot, func() string { return caseJSON(Case{Kind: "command", Graph: gs.name, Line: line}) })
+	wd.Begin(slot, func() string { return caseJSON(cmdCase(gs.name, line)) })
 	kind, frame, panicked := engine.Guard(func() { err = g.Execute(context.Background(), line) })
 	wd.End(slot)
 	_ = err
 	if panicked {
+		if strings.HasPrefix(kind, "expect_") {
+			// Node.parse's own panic message quotes the command line: keep raw input out of the class
+			// (one class per line would be millions of classes over the wide alphabet)
+			kind = "expect_<rest-of-line>_prefixed_with_<literal>"
+		}
 		rep.FailLazy("Graph.Execute/panic/"+frame+"/"+kind, len(line)*100+len(gs.name), func() engine.Failure {
 			return engine.Failure{Detail: fmt.Sprintf("panic %s in %s executing command line %q on graph %s", kind, frame, line, gs.name),
-				Case: Case{Kind: "command", Graph: gs.name, Line: line}}
+				Case: cmdCase(gs.name, line)}
 		})
 	}
+}
+
+// cmdExtraSymbols: family (e2). Every character class a blank-trimming / word-splitting /
+// rune-walking step of the dispatcher could tell apart, one representative per code point that Go,
+// Java or Unicode treats as a blank, and the encodings a rune loop can trip over. Each entry is ONE
+// symbol of the line alphabet (it may be several bytes long).
+var cmdExtraSymbols = []struct{ name, s string }{
+	// ASCII blanks other than space and tab (space and tab are in the base alphabet of family (e))
+	{"LF", "\n"}, {"VT", "\v"}, {"FF", "\f"}, {"CR", "\r"},
+	// ASCII controls that are not blanks for Go (1c..1f are for Java's Character.isWhitespace)
+	{"NUL", "\x00"}, {"FS", "\x1c"}, {"US", "\x1f"}, {"DEL", "\x7f"},
+	// every other code point with the Unicode White_Space property (what strings.TrimSpace strips)
+	{"U+0085", "\u0085"}, {"U+00A0", "\u00a0"}, {"U+1680", "\u1680"},
+	{"U+2000", "\u2000"}, {"U+2001", "\u2001"}, {"U+2002", "\u2002"}, {"U+2003", "\u2003"}, {"U+2004", "\u2004"},
+	{"U+2005", "\u2005"}, {"U+2006", "\u2006"}, {"U+2007", "\u2007"}, {"U+2008", "\u2008"}, {"U+2009", "\u2009"},
+	{"U+200A", "\u200a"}, {"U+2028", "\u2028"}, {"U+2029", "\u2029"}, {"U+202F", "\u202f"}, {"U+205F", "\u205f"},
+	{"U+3000", "\u3000"},
+	// look-alikes that are NOT White_Space
+	{"U+180E", "\u180e"}, {"U+200B", "\u200b"}, {"U+2060", "\u2060"}, {"U+FEFF", "\ufeff"},
+	// ordinary letters of 2, 3 and 4 bytes
+	{"U+00E9", "\u00e9"}, {"U+20AC", "\u20ac"}, {"U+1F600", "\U0001f600"},
+	// byte sequences that are not valid UTF-8: a lone continuation byte, ff, a lead byte without its
+	// continuation (c2 would start U+0085/U+00A0, e3 80 would start U+3000), an encoded surrogate
+	{"80", "\x80"}, {"ff", "\xff"}, {"c2", "\xc2"}, {"e380", "\xe3\x80"}, {"eda080", "\xed\xa0\x80"},
 }
 
 // famCommands: all lines of length <= L over cmdAlphabet x every graph.
@@ -154,5 +186,49 @@ func famCommands(L int) []func(slot int) {
 	rep.Count("command_executions", int64(len(gs)))
 	rep.NonTrivial(int64(len(gs)))
 	rep.AddStates(int64(len(gs)))
+	return jobs
+}
+
+// famCommandsWide: family (e2). For every extra symbol X of cmdExtraSymbols and every graph: all lines of
+// <= L symbols over {a, b, ", \, space, X} that contain X at least once (the lines without X belong to
+// family (e)). Same oracle: no panic, no spinning.
+func famCommandsWide(L int) []func(slot int) {
+	gs := graphs()
+	base := []string{"a", "b", `"`, `\`, " "}
+	var jobs []func(slot int)
+	for _, g := range gs {
+		g := g
+		for _, x := range cmdExtraSymbols {
+			x := x
+			jobs = append(jobs, func(slot int) {
+				var n int64
+				var rec func(line []byte, k int, used bool)
+				rec = func(line []byte, k int, used bool) {
+					if used {
+						runCommand(slot, g, string(line))
+						n++
+					}
+					if k == L {
+						return
+					}
+					for _, a := range base {
+						rec(append(line[:len(line):len(line)], a...), k+1, used)
+					}
+					rec(append(line[:len(line):len(line)], x.s...), k+1, true)
+				}
+				rec(nil, 0, false)
+				rep.Eval(n)
+				rep.Count("command_executions_wide_alphabet", n)
+				rep.NonTrivial(n)
+				rep.AddStates(n)
+			})
+		}
+	}
+	var names []string
+	for _, x := range cmdExtraSymbols {
+		names = append(names, x.name)
+	}
+	rep.Extra("command_wide_symbols", names)
+	rep.Extra("command_wide_line_max_symbols", L)
 	return jobs
 }
